@@ -5,7 +5,8 @@ import re
 from tools.lib import loopback
 
 SERIALIZERS = ["serpent", "marshal", "json", "msgpack"]
-KINDS = ["plain", "attr", "stream", "batch"]
+KINDS = ["plain", "attr", "setattr", "stream", "batch"]
+DEPTHS = [0, 1, 10, 60, 200]
 OPAQUE = {"$opaque": 1}
 
 
@@ -212,27 +213,56 @@ STATE = {"exc": None, "calls": 0}
 
 ENTRY_NAMES = ["boom_batch", "boom", "prop", "stream_body", "next_item"]
 ENTRY_RE = re.compile(r"\bin (%s)\b" % "|".join(ENTRY_NAMES))
+RAISE_FN = "c07_raise_site"
+RAISE_LINE = 'raise STATE["exc"]  # C07-RAISE-LINE'
+
+
+def c07_raise_site():
+    raise STATE["exc"]  # C07-RAISE-LINE
+
+
+def c07_descend(n):
+    """the exception is raised n calls below the entry point (plus the raise site itself)"""
+    if n <= 0:
+        c07_raise_site()
+    else:
+        c07_descend(n - 1)
 
 
 def entry_of(kind, exc):
-    """name of the server-side function that raises for this call kind"""
+    """name of the server-side function the daemon dispatches to for this call kind"""
     if kind == "stream":
         return "next_item" if isinstance(exc, StopIteration) else "stream_body"
-    return {"plain": "boom", "attr": "prop", "batch": "boom_batch"}[kind]
+    return {"plain": "boom", "attr": "prop", "setattr": "prop", "batch": "boom_batch"}[kind]
 
 
 def tb_token(tb):
-    """reduce traceback text to the entry point of the call it describes: the frames of the current call come
-    first (frames left on a re-raised instance by earlier raises follow them)"""
+    """reduce traceback text to (entry point of the call it describes, raise site): the frames of the current call
+    come first (frames left on a re-raised instance by earlier raises follow them); the raise site must show up
+    - function name and source line - between this call's entry point and the next entry point, if any"""
     if not tb:
         return None
     text = "".join(tb) if isinstance(tb, (list, tuple)) and all(isinstance(t, str) for t in tb) else str(tb)
     m = ENTRY_RE.search(text)
-    return "TB:" + (m.group(1) if m else "?")
+    if not m:
+        return "TB:?@?"
+    rest = text[m.end():]
+    m2 = ENTRY_RE.search(rest)
+    seg = rest[:m2.start()] if m2 else rest
+    i = seg.find("in " + RAISE_FN)
+    site = RAISE_FN if i >= 0 and RAISE_LINE in seg[i:] else "?"
+    return "TB:%s@%s" % (m.group(1), site)
 
 
-def make_server():
+def expected_token(entry):
+    return "TB:%s@%s" % (entry, RAISE_FN)
+
+
+def make_server(hooks=False):
     import Pyro5.api as api
+
+    def fail():
+        c07_descend(STATE.get("depth", 0))
 
     class RaisingIterator(object):
         def __init__(self):
@@ -242,7 +272,7 @@ def make_server():
             return self
 
         def next_item(self):
-            raise STATE["exc"]
+            fail()
 
         def __next__(self):
             self.n += 1
@@ -251,22 +281,26 @@ def make_server():
             self.next_item()
 
     @api.expose
-    class Target(object):
+    class Base(object):
         def ok(self, k=1):
             STATE["calls"] += 1
             return k
 
         def boom(self):
             STATE["calls"] += 1
-            raise STATE["exc"]
+            fail()
 
         def boom_batch(self):
             STATE["calls"] += 1
-            raise STATE["exc"]
+            fail()
 
         @property
         def prop(self):
-            raise STATE["exc"]
+            fail()
+
+        @prop.setter
+        def prop(self, value):
+            fail()
 
         @property
         def okprop(self):
@@ -278,8 +312,22 @@ def make_server():
 
             def stream_body():
                 yield 1
-                raise STATE["exc"]
+                fail()
             return stream_body()
+
+    if hooks:
+        class Target(Base):
+            """a class with attribute hooks: a lookup fallback and a recording __setattr__"""
+            def __getattr__(self, name):
+                if name.startswith("_"):
+                    raise AttributeError(name)
+                return "fallback:" + name
+
+            def __setattr__(self, name, value):
+                self.__dict__[name] = value
+    else:
+        class Target(Base):
+            pass
     return Target()
 
 
@@ -301,8 +349,13 @@ class Rig:
         from Pyro5 import config
         config.MAX_RETRIES = 0
         self.daemon = loopback.make_daemon()
-        self.target = make_server()
+        self.target = make_server(False)
         self.uri = self.daemon.register(self.target, "c07target")
+        self.target_hooks = make_server(True)
+        self.uri_hooks = self.daemon.register(self.target_hooks, "c07hooks")
+
+    def uri_for(self, case):
+        return self.uri_hooks if case.get("hooks") else self.uri
 
     def close(self):
         self.daemon.close()
@@ -363,6 +416,9 @@ def do_call(p, kind, before, obs):
         obs["values"].append(p.boom())
     elif kind == "attr":
         obs["values"].append(p.prop)
+    elif kind == "setattr":
+        p.prop = 7
+        obs["values"].append("assigned")
     elif kind == "stream":
         it = p.gen()
         obs["it"] = it
@@ -389,8 +445,9 @@ def run_prior(rig, case, exc):
     """history: the same exception INSTANCE is first raised by an earlier call of another kind (own proxy)"""
     import Pyro5.api as api
     STATE["exc"] = exc
+    STATE["depth"] = case.get("prior_depth", 0)
     with Net(rig.daemon):
-        p = api.Proxy(rig.uri)
+        p = api.Proxy(rig.uri_for(case))
         p._pyroSerializer = case.get("prior_ser", case["ser"])
         p._pyroTimeout = 1
         o = {"before": 0, "values": []}
@@ -409,9 +466,10 @@ def run_call(rig, case, exc, canon=None):
     """perform the call of case["kind"] with serializer case["ser"]; the server raises `exc`."""
     import Pyro5.api as api
     STATE["exc"] = exc
+    STATE["depth"] = case.get("depth", 0)
     obs = {"before": 0, "values": []}
     with Net(rig.daemon) as net:
-        p = api.Proxy(rig.uri)
+        p = api.Proxy(rig.uri_for(case))
         p._pyroSerializer = case["ser"]
         p._pyroTimeout = 1
         try:
